@@ -135,6 +135,8 @@ func C16(c *core.Ctx) {
 		if len(lfiles) > 0 {
 			fmt.Fprintf(&sb, "      - ./l%d.label\n", len(lfiles))
 		}
+		// service r: keys written more than once in one list (the later entry of a key is the entry - Merge.tla, SeqToKV)
+		sb.WriteString("  r:\n    image: img\n    environment: [R1=0, R1=1, R2=a, R3=x, R2=b]\n    labels: [R1=0, R1=1, R2=a, R3=x, R2=b]\n")
 		doc := sb.String()
 		env := types.Mapping{}
 		if penv.Set {
@@ -190,6 +192,18 @@ func C16(c *core.Ctx) {
 				}
 			}
 		}
+		if r := p.Services["r"]; true {
+			ev := func(k string) string {
+				if v := r.Environment[k]; v != nil {
+					return *v
+				}
+				return "<none>"
+			}
+			got := fmt.Sprintf("%d %s %s %s | %d %s %s %s", len(r.Environment), ev("R1"), ev("R2"), ev("R3"), len(r.Labels), r.Labels["R1"], r.Labels["R2"], r.Labels["R3"])
+			if want := "3 1 b x | 3 1 b x"; got != want {
+				fail("layering:repeated-keys", fmt.Sprintf("environment / labels [R1=0, R1=1, R2=a, R3=x, R2=b] load as %s; one entry per key, the later one: %s", got, want))
+			}
+		}
 		gk, hk := s.Environment["K"]
 		check("environment K", gk, hk, asMap(cs["k"]))
 		gr, hr := s.Environment["R"]
@@ -221,6 +235,24 @@ func C16(c *core.Ctx) {
 			g, h := sbv.Labels[x[0]]
 			if h != w.Set || g != w.V {
 				fail("layering:label of the second service", fmt.Sprintf("label %s of the second service = %q (present %v); the layering rules define %q (present %v)", x[0], g, h, w.V, w.Set))
+			}
+		}
+		// the same service left out by an inactive profile at load and enabled afterwards: its environment is layered then
+		if n%4 == 1 && !repeat { // (a file listed twice is the known finding C16-repeated-env-file-position, reported by the load above)
+			doc2 := strings.Replace(doc, "  a:\n    image: img\n", "  a:\n    image: img\n    profiles: [late]\n", 1)
+			pl, errl := loader.LoadWithContext(context.Background(), types.ConfigDetails{WorkingDir: dir, Environment: env,
+				ConfigFiles: []types.ConfigFile{{Filename: filepath.Join(dir, "compose.yaml"), Content: []byte(doc2)}}}, opts...)
+			c.Eval(key+" [enabled after load]", len(files) > 0)
+			if errl != nil {
+				fail("enabled-later", "with service a under an inactive profile the load fails: "+errl.Error())
+			} else if q, errq := pl.WithServicesEnabled("a"); errq != nil {
+				fail("enabled-later", "enabling service a after the load fails: "+errq.Error())
+			} else {
+				sq := q.Services["a"]
+				gq, hq := sq.Environment["K"]
+				check("environment K of the service enabled after load", gq, hq, asMap(cs["k"]))
+				gq, hq = sq.Environment["R"]
+				check("environment R of the service enabled after load", gq, hq, asMap(cs["r"]))
 			}
 		}
 		// labels are layered whether or not the services' environment is resolved (SkipResolveEnvironment concerns `environment` only)
